@@ -122,7 +122,74 @@ theorem par_batch_evaluate_spec (R RT T threads : Nat) (p domain out : List K)
     out = domain.map (fun x => (denote p).eval x) :=
   parBatchEvaluateWith_sound root hE R RT T threads p domain out h
 
+/-- **Lagrange interpolation** (synthetic division of the zerofier by `X - xᵢ`, Horner evaluation of the cofactor,
+    weighted sum) through pairwise distinct abscissae: returns a polynomial passing the certificate — hence, by
+    `interpolant_unique`, *the* interpolant — for every zerofier cut-off `T ≥ 2`. -/
+theorem lagrange_interpolate_spec (T : Nat) (hT : 2 ≤ T) (domain values : List K) (hn : domain.Nodup)
+    (hl : domain.length = values.length) :
+    ∃ f, lagrangeInterpolateWith FK E T domain values = some f ∧ Interpolates domain values (denote f) := by
+  obtain ⟨f, h1, _, h2⟩ := lagrangeInterpolateWith_spec root hE T domain values hn hl
+    (zerofierWith_total root (E := E) T hT domain)
+  exact ⟨f, h1, h2⟩
+
+/-- **Divide and conquer** `f = L·Z_R + R·Z_L` (`fast_interpolate`): for every sequential cut-off, ratio, leaf size
+    `≥ 1` and zerofier cut-off `≥ 2`, through any `n ≥ 1` pairwise distinct abscissae. -/
+theorem fast_interpolate_spec (t : Thr) (hT : 2 ≤ t.zf) (hRT : 0 < t.rt) (domain values : List K)
+    (hne : domain ≠ []) (hn : domain.Nodup) (hl : domain.length = values.length) :
+    ∃ f, fastInterpolateWith FK E t domain values = some f ∧ Interpolates domain values (denote f) := by
+  have hbev : BevOK (bevSeq FK E t) := fun p d => batchEvaluateWith_total root hE t.ratio t.rt t.zf hRT hT p d
+  apply fastInterpolateStep_spec root hE t.zf hT _ _ hbev domain values _ hne hn hl
+  intro d v hd hlen hnd hlv
+  exact interpolateFuel_spec root hE t hT t.seq _ hbev (d.length + 1) d v hd (by omega) hnd hlv
+
+/-- **`interpolate`** — Lagrange up to the cut-off, divide and conquer above — **for every value of every
+    threshold** (`t.seq`, `t.ratio` arbitrary; `t.rt ≥ 1`, `t.zf ≥ 2`): the unique interpolant. -/
+theorem interpolate_spec (t : Thr) (hT : 2 ≤ t.zf) (hRT : 0 < t.rt) (domain values : List K)
+    (hne : domain ≠ []) (hn : domain.Nodup) (hl : domain.length = values.length) :
+    ∃ f, interpolateWith FK E t domain values = some f ∧ Interpolates domain values (denote f) := by
+  have hbev : BevOK (bevSeq FK E t) := fun p d => batchEvaluateWith_total root hE t.ratio t.rt t.zf hRT hT p d
+  exact interpolateFuel_spec root hE t hT t.seq _ hbev (domain.length + 1) domain values hne (by omega) hn hl
+
+/-- **`par_interpolate` / `par_fast_interpolate`, every thread count `≥ 1`**, every threshold as above. -/
+theorem par_interpolate_spec (t : Thr) (hT : 2 ≤ t.zf) (hRT : 0 < t.rt) (threads : Nat) (hth : 0 < threads)
+    (domain values : List K) (hne : domain ≠ []) (hn : domain.Nodup) (hl : domain.length = values.length) :
+    ∃ f, parInterpolateWith FK E t threads domain values = some f ∧ Interpolates domain values (denote f) := by
+  have hbev : BevOK (bevPar FK E t threads) :=
+    fun p d => parBatchEvaluateWith_total root hE t.ratio t.rt t.zf threads hRT hT hth p d
+  exact interpolateFuel_spec root hE t hT t.par _ hbev (domain.length + 1) domain values hne (by omega) hn hl
+
+theorem par_fast_interpolate_spec (t : Thr) (hT : 2 ≤ t.zf) (hRT : 0 < t.rt) (threads : Nat) (hth : 0 < threads)
+    (domain values : List K) (hne : domain ≠ []) (hn : domain.Nodup) (hl : domain.length = values.length) :
+    ∃ f, parFastInterpolateWith FK E t threads domain values = some f ∧ Interpolates domain values (denote f) := by
+  have hbev : BevOK (bevPar FK E t threads) :=
+    fun p d => parBatchEvaluateWith_total root hE t.ratio t.rt t.zf threads hRT hT hth p d
+  apply fastInterpolateStep_spec root hE t.zf hT _ _ hbev domain values _ hne hn hl
+  intro d v hd hlen hnd hlv
+  exact interpolateFuel_spec root hE t hT t.par _ hbev (d.length + 1) d v hd (by omega) hnd hlv
+
+omit hE in
+/-- the excluded inputs: `interpolate` / `par_interpolate` panic on an empty domain and on lists of different
+    lengths (the two `assert!`s), for every threshold. -/
+theorem interpolate_rejects (t : Thr) (threads : Nat) (domain values : List K)
+    (h : domain = [] ∨ domain.length ≠ values.length) :
+    interpolateWith FK E t domain values = none ∧ parInterpolateWith FK E t threads domain values = none := by
+  unfold interpolateWith parInterpolateWith
+  rcases h with rfl | h
+  · simp [interpolateFuel]
+  · constructor <;>
+    · rw [interpolateFuel]
+      split
+      · rfl
+      · rw [if_pos (by simpa using h)]
+
 end
+
+/-- the contracts on the routines of C07/C09 are satisfiable (so none of the theorems above is vacuous) … -/
+example : (Ext.ideal : Ext ℚ).Lawful := Ext.ideal_lawful
+/-- … and so are the hypotheses on the points -/
+example : ([0, 1, 2] : List ℚ).Nodup ∧ ([0, 1, 2] : List ℚ).length = ([5, 7, 11] : List ℚ).length
+    ∧ ([0, 1, 2] : List ℚ) ≠ [] := by decide
+example : 2 ≤ Thr.src.zf ∧ 0 < Thr.src.rt := by decide
 
 /-- the thresholds the theorems are instantiated with by the driver come from the source -/
 example : TF.Gen.FAST_ZEROFIER_CUTOFF_THRESHOLD = 100 := rfl
